@@ -29,7 +29,7 @@ sed -i "s#path = \"/repo\"#path = \"$R\"#" "$V/harness/Cargo.toml" "$V/c14/corpu
 sed -i "s#cwd=\"/repo\"#cwd=\"$R\"#" "$V/lib/c14.py"
 sed -i "s#CARGO_TARGET_DIR=/verif/target#CARGO_TARGET_DIR=$V/target#" "$V/setup.sh"
 cd "$V"
-./setup.sh >/dev/null 2>"$V/setup.log" || { echo "TRIAL $name: setup failed"; tail -20 "$V/setup.log"; exit 2; }
+./setup.sh >/dev/null 2>"$V/setup.log" || echo "TRIAL $name: setup reported a failure (the checks build for themselves)"
 for id in "$@"; do
   set +e
   out=$(./check "$id" "${TIER:-quick}" 2>&1)
